@@ -200,6 +200,12 @@ func (s *Syncer[H]) tailHeight(ctx context.Context, oldTail, head H) (uint64, er
 // estimateTailHeight estimates the tail header based on the current head.
 // It respects the trusting period, ensuring Syncer never initializes off an expired header.
 func (s *Syncer[H]) estimateTailHeight(head H) uint64 {
+	if s.Params.blockTime <= 0 {
+		// block time is unknown, so there is nothing to estimate with:
+		// start from the head, which is the only header known not to be expired
+		return head.Height()
+	}
+
 	headersToRetain := uint64(s.Params.trustingPeriod / s.Params.blockTime) //nolint:gosec
 	if headersToRetain >= head.Height() {
 		// means chain is very young so we can keep all headers starting from genesis
@@ -222,15 +228,26 @@ func (s *Syncer[H]) findTailHeight(ctx context.Context, oldTail, head H) (uint64
 	case tailTimeDiff <= 0:
 		// current tail is relevant as is
 		return oldTail.Height(), nil
+	case s.Params.blockTime <= 0 || head.Height() <= oldTail.Height():
+		// block time is unknown, so there is nothing to estimate with: find the tail by time only
+		estimatedTailHeight = oldTail.Height() + 1
 	case tailTimeDiff >= window:
 		// current and expected tails are far from each other
 		// estimate with head for higher accuracy
 		headersToStore := uint64(window / s.Params.blockTime) //nolint:gosec
+		if headersToStore >= head.Height()-oldTail.Height() {
+			// never estimate below the current tail (or wrap around)
+			headersToStore = head.Height() - oldTail.Height() - 1
+		}
 		estimatedTailHeight = head.Height() - headersToStore
 	case tailTimeDiff < window:
 		// tails are close
 		// estimate with tail for higher accuracy
 		headersToStore := uint64(tailTimeDiff / s.Params.blockTime) //nolint:gosec
+		if headersToStore > head.Height()-oldTail.Height() {
+			// never estimate above the head (or wrap around)
+			headersToStore = head.Height() - oldTail.Height()
+		}
 		estimatedTailHeight = oldTail.Height() + headersToStore
 	}
 
@@ -243,6 +260,31 @@ func (s *Syncer[H]) findTailHeight(ctx context.Context, oldTail, head H) (uint64
 	)
 
 	newTailHeight := estimatedTailHeight
+	// the estimation assumes headers to be exactly blockTime apart, but they may come faster and
+	// the estimated tail then lies inside the window: walk back while the header below is still inside
+	// (only headers up to the store's head can be looked at: the new head may be not synced yet)
+	walked := min(newTailHeight, s.store.Height()+1)
+	for walked > oldTail.Height()+1 {
+		prev, err := s.store.GetByHeight(ctx, walked-1)
+		if err != nil {
+			return 0, fmt.Errorf(
+				"getting header below estimated new tail(%d) from store: %w",
+				estimatedTailHeight,
+				err,
+			)
+		}
+
+		if expectedTailTime.Compare(prev.Time().UTC()) > 0 {
+			break
+		}
+
+		walked--
+	}
+	if walked <= s.store.Height() {
+		// some stored header is still inside the window
+		newTailHeight = walked
+	}
+
 	for newTailHeight > oldTail.Height() && newTailHeight < s.store.Height() {
 		// store keeps all the headers up to the current head
 		// iterate over the headers and find the most accurate tail
